@@ -507,3 +507,21 @@ Fixpoint no_shadow_node (n : node) : bool :=
                                  end) es
   end.
 Definition no_shadow (t : dir) : bool := no_shadow_node (Dir t).
+
+(* ---------------------------------------------------------------- path spellings (State.abspath, create_source_list)
+   A command-line path is a list of components; mypy keys files by os.path.normpath(os.path.join(cwd, path))
+   (build.py State.__init__, modulefinder results are normalised already).  `normpath` below is that function for a
+   relative spelling: cwd is a canonical reversed path, ".." at the root stays at the root. *)
+Inductive comp := CDot | CUp | CName (e : ename).
+Fixpoint normpath (cwd : rpath) (cs : list comp) : rpath :=
+  match cs with
+  | [] => cwd
+  | CDot :: r => normpath cwd r
+  | CUp :: r => normpath (tl cwd) r
+  | CName e :: r => normpath (e :: cwd) r
+  end.
+(* the canonical spelling of a canonical path, from the root *)
+Definition spell (p : rpath) : list comp := map CName (rev p).
+(* load_graph's same-file check applied to a path as spelled *)
+Definition add_dependency_spelled (cwd : rpath) (g : graph) (dep : modname) (cs : list comp) : graph + graph_error :=
+  add_dependency g dep (normpath cwd cs).
